@@ -245,3 +245,46 @@ def run(F, rep):
             rep.check(uses, 'C13.X1', '%s|%s' % (g.short.split('::')[-1], render(c)[:50]), g.where(c), '%s: inside `for (%s)` the child is read by `%s`, which does not use %s' % (g.short, render(role(loop, 'cond')), render(c)[:60], ivar), 'indexed by ' + ivar)
     if n_x < 20:
         raise AnalysisBroken('C13.X1: only %d indexed child accesses in annotator.cpp (40+ confirmed)' % n_x)
+
+    # ------------------------------------------------------------------ L: the index records every id
+    rep.rule('C13.L1', 'the index builders (listIdsAndItems and its helpers) record an id whenever it is non-empty: each insertion into the id list depends on non-empty / non-null tests (and found-once bookkeeping) only, '
+                       'never on where the entity sits in the model - an id that is carried but not indexed is invisible to makeUniqueId() and is handed out a second time')
+    from engines import ff as _ff
+    from facts import null_test as _nt
+    n_l = 0
+    for g in F.funcs.values():
+        if not g.file.endswith('/annotator.cpp') or not g.name.startswith('list'):
+            continue
+        for c in g.walk():
+            if c.get('k') == 'Call' and c.get('mc') and c.get('fn') in ('insert', 'emplace') and render(receiver(c)) in ('idList', 'mIdList'):
+                n_l += 1
+                extra = []
+                for cn, tr in (_ff(g).conds_at(c) or []):
+                    t = render(cn)
+                    if _nt(cn) is not None or t.endswith('.empty()') or 'found' in t.lower() or t.startswith('reportedConnections') or '.count(' in t or 'isStandardUnit' in t or t.endswith('->isImport()'):
+                        continue
+                    # loop conditions (index < count) are not conditions on the entity
+                    if cn.get('k') == 'Bin' and cn.get('op') == '<':
+                        continue
+                    extra.append((t, tr))
+                rep.check(not extra, 'C13.L1', '%s|%s' % (g.name, render(c)[:50]), g.where(c), '%s records this id only when %s' % (g.short, ' and '.join('`%s` is %s' % e for e in extra)[:160]), 'recorded whenever the id is non-empty')
+    if n_l < 10:
+        raise AnalysisBroken('C13.L1: only %d id-list insertions found (13 confirmed)' % n_l)
+
+    rep.rule('C13.H1', 'the change-detection hash of the annotator is stored only where the index has just been rebuilt (AnnotatorImpl::update) or the model replaced: any other writer marks a hand-patched index as fresh')
+    n_h = 0
+    from engines import is_write_context as _iw
+    for g in F.funcs.values():
+        if not g.file.endswith('/annotator.cpp'):
+            continue
+        for m_ in g.walk():
+            if m_.get('k') == 'Member' and m_.get('field') and m_.get('n') == 'mHash' and _iw(g, m_):
+                n_h += 1
+                p_ = g.parent(m_)
+                rhs = p_['c'][1] if p_ is not None and len(p_.get('c', [])) > 1 else None
+                if rhs is not None and rhs.get('k') == 'Int' and rhs.get('v') == 0:
+                    rep.ok('C13.H1', '%s|mHash = 0' % g.short, g.where(m_), 'invalidates the index')
+                    continue
+                rep.check(g.name in ('update', 'AnnotatorImpl', 'Annotator'), 'C13.H1', '%s|mHash' % g.short, g.where(m_), '%s stores the hash although it does not rebuild the index' % g.short, 'written by %s' % g.name)
+    if n_h < 1:
+        raise AnalysisBroken('C13.H1: no writer of AnnotatorImpl::mHash found')
